@@ -1,43 +1,71 @@
 ------------------------------ MODULE MC_Async ------------------------------
 (***************************************************************************)
 (* C20, design level.  TagIteratorAsync (src/nonblocking.rs) is an inner   *)
-(* blocking iterator over an in-memory cursor that only grows:             *)
-(*   AsyncNext == one source read of n bytes appended to the cursor, then  *)
-(*                one inner next() over what the cursor holds.              *)
-(* The *intended* behaviour is the refinement target: the results equal    *)
-(* those of the blocking iterator over the same bytes, ending once.        *)
-(* With OneReadPerCall = FALSE the wrapper is the intended one (it keeps   *)
-(* reading until the source is exhausted before it lets the inner iterator *)
-(* see an end of input) and the refinement holds for every poll schedule.  *)
-(* With OneReadPerCall = TRUE the model is the *current* code, named       *)
-(* deviation DEV_ASYNC_STRADDLE: TLC then produces the counterexample (a   *)
-(* tag straddling two reads; premature Ends at a boundary) - that          *)
-(* configuration is kept for documentation and is not part of the check.   *)
+(* blocking iterator over an in-memory cursor that only grows; the inner   *)
+(* iterator takes the end of the cursor for the end of the input.          *)
+(*   AsyncNext == while nothing is queued in the inner iterator and the    *)
+(*                bytes of its next item have not all been received        *)
+(*                (Received): one more source read, appended to the cursor *)
+(*                (stop when the source is exhausted);                     *)
+(*                then one inner next() over what the cursor holds.        *)
+(* Received mirrors next_item_received(): header complete; an element      *)
+(* needs its payload; an unbuffered master only its header; a buffered     *)
+(* known-size master its whole extent *and* the item after it (the inner   *)
+(* iterator finds a master's end while reading the following tag); a       *)
+(* buffered unknown-size master needs the rest of the source.              *)
+(* Refinement target: the results equal those of the blocking iterator     *)
+(* over the same bytes (relation P_C04), ending once - for every split of  *)
+(* the input into reads and every buffered set.                            *)
+(* Wrapper = "one_read" is the code before its repair (one read per call,  *)
+(* then the inner iterator, whatever has arrived): TLC then produces the   *)
+(* counterexample (a tag straddling two reads; premature Ends) - kept for  *)
+(* documentation, not part of the check.  Wrapper = "no_follow" drops the  *)
+(* "item after a buffered master" clause: also refuted by TLC.             *)
 (***************************************************************************)
 EXTENDS ReaderCore, Schemas, TLC
-CONSTANTS MaxLen, Sigma, OneReadPerCall
-VARIABLES inp, avail, r, out, phase
-vars == <<inp, avail, r, out, phase>>
+CONSTANTS MaxLen, Sigma, Wrapper
+VARIABLES inp, avail, r, out, phase, nreads, buf
+vars == <<inp, avail, r, out, phase, nreads, buf>>
+BufSets == {{}, {B}, {A}, {A, B}}
 P04 == INSTANCE P_C04
-Cfg == [allowId |-> FALSE, allowHier |-> FALSE, allowSize |-> FALSE, hasMax |-> FALSE, max |-> <<>>, buffered |-> {}, eofClose |-> TRUE, cap0 |-> 16]
+Cfg == [allowId |-> FALSE, allowHier |-> FALSE, allowSize |-> FALSE, hasMax |-> FALSE, max |-> <<>>, buffered |-> buf, eofClose |-> TRUE, cap0 |-> 16]
 Blocking == ParseAll(S3, Cfg, inp)
 
-Init == inp = <<>> /\ avail = 0 /\ r = InitReader /\ out = <<>> /\ phase = "grow"
-Grow == phase = "grow" /\ Len(inp) < MaxLen /\ \E b \in Sigma : inp' = Append(inp, b) /\ UNCHANGED <<avail, r, out, phase>>
-Start == phase = "grow" /\ phase' = "run" /\ UNCHANGED <<inp, avail, r, out>>
-Done == out # <<>> /\ out[Len(out)].res # "item" /\ avail = Len(inp)
-\* one poll: the source hands over n >= 0 further bytes (any split), then the inner iterator is asked
+RECURSIVE Received(_, _)
+Received(data, pos) ==
+  LET h == HeaderAt(data, pos) IN
+  IF h.t \in {"eof_id", "eof_size"} THEN FALSE
+  ELSE IF h.t = "bad_size" THEN TRUE
+  ELSE LET master == TypeOf(S3, h.id) = "master"  have == Len(data) - pos - h.hlen IN
+    IF master /\ h.id \notin buf THEN TRUE
+    ELSE IF h.unk THEN ~master
+    ELSE IF ~master THEN have >= h.size
+    ELSE IF have < h.size THEN FALSE
+    ELSE IF Wrapper = "no_follow" THEN TRUE
+    ELSE Received(data, pos + h.hlen + h.size)
+
+\* the wrapper may stop reading with a bytes received
+Ready(a) == r.queue # <<>> \/ Received(Take(inp, a), r.pos) \/ a = Len(inp)
+
+Init == inp = <<>> /\ avail = 0 /\ r = InitReader /\ out = <<>> /\ phase = "grow" /\ nreads = 0 /\ buf = {}
+Grow == phase = "grow" /\ Len(inp) < MaxLen /\ \E b \in Sigma : inp' = Append(inp, b) /\ UNCHANGED <<avail, r, out, phase, nreads, buf>>
+Start == phase = "grow" /\ phase' = "run" /\ buf' \in BufSets /\ UNCHANGED <<inp, avail, r, out, nreads>>
+\* the comparison ends with the first result that is not an item (an error may repeat for ever, here as in the blocking iterator)
+Done == out # <<>> /\ out[Len(out)].res # "item"
+Ask(a1) == LET s == NextCall(S3, Cfg, Take(inp, a1), r) IN r' = s.r /\ out' = Append(out, s.res) /\ avail' = a1
+\* one call of next(): the source hands over its bytes in arbitrary pieces
 AsyncNext == /\ phase = "run" /\ ~Done
-             /\ \E n \in 0..(Len(inp) - avail) :
-                  LET a1 == avail + n IN
-                  /\ avail' = a1
-                  /\ IF OneReadPerCall \/ a1 = Len(inp)
-                     THEN LET s == NextCall(S3, Cfg, Take(inp, a1), r) IN r' = s.r /\ out' = Append(out, s.res)
-                     ELSE UNCHANGED <<r, out>>              \* intended: keep reading, do not show the inner iterator a false end
-             /\ UNCHANGED <<inp, phase>>
+             /\ IF Wrapper = "one_read" THEN \E a1 \in avail..Len(inp) : Ask(a1) /\ nreads' = nreads + 1
+                ELSE IF Ready(avail) THEN Ask(avail) /\ UNCHANGED nreads          \* no read at all
+                ELSE \E a1 \in (avail + 1)..Len(inp) : Ready(a1) /\ Ask(a1) /\ nreads' = nreads + 1   \* the first piece boundary at which it is ready
+             /\ UNCHANGED <<inp, phase, buf>>
 Next == Grow \/ Start \/ AsyncNext
 Spec == Init /\ [][Next]_vars
 Refines == (phase = "run" /\ Done) =>
    LET why == P04!Rel(Blocking, out) IN why = "" \/ (PrintT(<<why, inp, out, Blocking>>) /\ FALSE)
-EndsOnce == \A i \in 1..(Len(out) - 1) : out[i].res # "none" \/ OneReadPerCall
+\* a None is the end of the input: everything was received, and nothing is left open or queued
+EndsOnce == (out # <<>> /\ out[Len(out)].res = "none" /\ Wrapper # "one_read") => avail = Len(inp) /\ r.queue = <<>>
+\* the inner iterator never sees a false end of input: whenever it is asked, its answer is the blocking iterator's next one
+StepWise == (phase = "run" /\ Wrapper = "header_aware") =>
+   \A i \in 1..Min(Len(out), Len(Blocking)) : P04!Rel(<<Blocking[i]>>, <<out[i]>>) = ""
 =============================================================================
